@@ -181,6 +181,16 @@ pub fn arithmetic(env: &Env, txs: &[Transaction], rep: &TaxReport, cfg: &Config)
 }
 
 fn visit_c04(ctx: &Ctx, env: &Env, cfg: &Config, acc: &mut Acc, txs: &[Transaction]) {
+    // the identities hold in every line order: also run the order in which the two fills of one security on one day
+    // are separated by the other security's rows
+    for il in mcx::profiles::other_orders(txs) {
+        acc.bump("interleaved-line-order-also-run");
+        visit_c04_one(ctx, env, cfg, acc, &il);
+    }
+    visit_c04_one(ctx, env, cfg, acc, txs);
+}
+
+fn visit_c04_one(ctx: &Ctx, env: &Env, cfg: &Config, acc: &mut Acc, txs: &[Transaction]) {
     acc.states += 1;
     let out = run_calc(txs, None, Some(&env.fx), cfg);
     acc.bump(out.tag());
